@@ -101,7 +101,7 @@ func genQ(g *GenCtx) {
 			case k < 56:
 				g.Op("recv")
 			case k < 62:
-				if mode == 0 && i < steps/2 {
+				if mode != 3 && i < 2*steps/3 {
 					g.Op("send %d", next)
 					next++
 				} else {
